@@ -46,6 +46,7 @@ class Execution:
         self.traced = traced or {}
         self.diverged = None
         self.steps = 0
+        self.calls = {}
 
     # -- decisions -------------------------------------------------------
     def _decide(self, cur, label):
@@ -90,7 +91,16 @@ class Execution:
         if spec is None:
             return None
         first = frame.f_code.co_firstlineno
-        limit, pred = spec if isinstance(spec, tuple) else (spec, None)
+        limit, pred = (spec[0], spec[1]) if isinstance(spec, tuple) else (spec, None)
+        maxcalls = spec[2] if isinstance(spec, tuple) and len(spec) > 2 else None
+        if maxcalls is not None:
+            # trace only the first `maxcalls` invocations per task: that is where a lazily
+            # initialised table can still be observed half-built
+            key = (threading.get_ident(), frame.f_code)
+            n = self.calls.get(key, 0) + 1
+            self.calls[key] = n
+            if n > maxcalls:
+                return None
 
         def local(frame, event, arg):
             if event == "line":
